@@ -4,6 +4,19 @@ import sys
 sys.path.insert(0, os.path.dirname(os.path.abspath(__file__)))
 import common
 
+# scratch directories left behind by runs of these checks that were killed from outside (older than six hours)
+import shutil
+import time
+_root = common.scratch_root()
+for _n in os.listdir(_root):
+    if _n.startswith("verif-"):
+        _p = os.path.join(_root, _n)
+        try:
+            if os.path.isdir(_p) and time.time() - os.lstat(_p).st_mtime > 6 * 3600:
+                shutil.rmtree(_p, ignore_errors=True)
+        except OSError:
+            pass
+
 ok, log = common.coq_build()
 print(log[-6000:])
 bad = common.hygiene()
